@@ -2324,6 +2324,11 @@ class Engine(object):
                 for k in set(a.ghost) | set(b.ghost):
                     if k.startswith("__"):
                         gh[k] = base.ghost.get(k, a.ghost.get(k, b.ghost.get(k)))     # engine bookkeeping (iteration-start values)
+                    elif k == "_warnings":
+                        # the warnings issued so far are part of the outcome: branches that issued different ones are kept apart
+                        if tuple(a.ghost.get(k, ())) != tuple(b.ghost.get(k, ())):
+                            raise EngineError("different warnings on the two branches")
+                        gh[k] = tuple(a.ghost.get(k, ()))
                     elif k in a.ghost and k in b.ghost:
                         gh[k] = a.ghost[k] if a.ghost[k] is b.ghost[k] else merge(t, a.ghost[k], b.ghost[k])
                 return rest + [("normal", State(env, pc, y, tr, a.rand, gh), None)]
